@@ -143,7 +143,8 @@ def plain_cases(draw):
     shape, layout = draw(_shape_layout())
     return {"base": base, "spell": spell, "shape": shape, "layout": layout, "seed": draw(sa.seeds),
             "func": draw(st.sampled_from(FUNCS)), "inplace": draw(st.booleans()),
-            "keep_dtype": draw(st.booleans())}
+            "keep_dtype": draw(st.booleans()),
+            "cls": draw(st.sampled_from(["ndarray", "ndarray", "ndarray", "recarray", "subclass"]))}
 
 
 @st.composite
@@ -166,7 +167,8 @@ def struct_cases(draw):
     shape, layout = draw(_shape_layout())
     return {"fields": fields, "shape": shape, "layout": layout, "seed": draw(sa.seeds),
             "func": draw(st.sampled_from(FUNCS)), "inplace": draw(st.booleans()),
-            "keep_dtype": draw(st.booleans())}
+            "keep_dtype": draw(st.booleans()),
+            "cls": draw(st.sampled_from(["ndarray", "ndarray", "ndarray", "recarray", "subclass"]))}
 
 
 def _table_order(fields):
@@ -223,11 +225,20 @@ def _raw_items(base):
     return np.frombuffer(base.tobytes(), dtype="u1").reshape(base.shape + (base.dtype.itemsize,)).copy()
 
 
+class _Sub(np.ndarray):
+    """A trivial ndarray subclass (stands for memmap, recarray, user subclasses)."""
+
+
 def check_convert(case, ctx):
     import esutil.numpy_util as nu
     func, inplace, keep = case["func"], case["inplace"], case["keep_dtype"]
     f = getattr(nu, func)
     base, arr, mask, fields, cur = _build(case)
+    cls = case.get("cls", "ndarray")
+    if cls == "recarray" and fields is not None:
+        arr = arr.view(np.recarray)           # array subclasses are arrays: same contract
+    elif cls == "subclass":
+        arr = arr.view(_Sub)
     layout = _field_layout(fields) if fields is not None else [
         (0, np.dtype(sa.typestr(case["base"], "<")).itemsize, _swap_unit(case["base"]))]
 
@@ -297,7 +308,8 @@ def check_convert(case, ctx):
 
 
 def classify_convert(case):
-    labs = ["func:" + case["func"], "inplace:%s" % case["inplace"], "keep:%s" % case["keep_dtype"],
+    labs = ["class:" + case.get("cls", "ndarray"), "func:" + case["func"], "inplace:%s" % case["inplace"],
+            "keep:%s" % case["keep_dtype"],
             "layout:" + case["layout"], "ndim:%d" % len(case["shape"])]
     if "fields" in case:
         fields = case["fields"]
